@@ -387,7 +387,7 @@ func (h *Header) SetExtension(id uint8, payload []byte) error { //nolint:gocogni
 			if id < 1 || id > 14 {
 				return fmt.Errorf("%w actual(%d)", errRFC8285OneByteHeaderIDRange, id)
 			}
-			if len(payload) > 16 {
+			if len(payload) < 1 || len(payload) > 16 {
 				return fmt.Errorf("%w actual(%d)", errRFC8285OneByteHeaderSize, len(payload))
 			}
 		// RFC 8285 RTP Two Byte Header Extension
@@ -418,17 +418,23 @@ func (h *Header) SetExtension(id uint8, payload []byte) error { //nolint:gocogni
 		return nil
 	}
 
-	// No existing header extensions
+	// No existing header extensions: choose the smallest RFC 8285 form that can carry
+	// the element, then validate it like any later element.
+	prevProfile := h.ExtensionProfile
 	h.Extension = true
 
-	switch payloadLen := len(payload); {
-	case payloadLen <= 16:
+	if id >= 1 && id <= 14 && len(payload) >= 1 && len(payload) <= 16 {
 		h.ExtensionProfile = extensionProfileOneByte
-	case payloadLen > 16 && payloadLen < 256:
+	} else {
 		h.ExtensionProfile = extensionProfileTwoByte
 	}
 
-	h.Extensions = append(h.Extensions, Extension{id: id, payload: payload})
+	if err := h.SetExtension(id, payload); err != nil {
+		h.Extension = false
+		h.ExtensionProfile = prevProfile
+
+		return err
+	}
 
 	return nil
 }
